@@ -412,7 +412,11 @@ func (m *Monitors) onStore(rr *runRec, c *workflow.Record) {
 		if cfg.CustomDelete {
 			var o Obj
 			if err := json.Unmarshal(p.Object, &o); err == nil {
-				if o.N > ScrubBase/2 {
+				if o.M != nil {
+					if k := o.M["k"]; k > ScrubBase/2 {
+						o.M["k"] = ScrubBase - k
+					}
+				} else if o.N > ScrubBase/2 {
 					o.N = ScrubBase - o.N
 				}
 				want, _ = json.Marshal(o)
